@@ -18,7 +18,7 @@ ASSUMPTIONS = [
     'z3 bit-vector semantics; proxy/shim layer validated by witness replay on every path of the non-hash opcodes',
 ]
 BOUNDS = {
-    'quick': 'per opcode: every stack of depth 0..(arity+1) whose operand items have every length in 0..5 bytes (arithmetic) / 0..2 bytes (stack manipulation) with fully symbolic content; PICK/ROLL counts: 0..1-byte encodings; programs through Script.evaluate: every sequence of <= 3 commands over the alphabet {push of a symbolic item of 0..2 bytes, OP_0, OP_1, IF, NOTIF, ELSE, ENDIF, VERIFY, RETURN, DUP, EQUAL, ADD, NOT}',
+    'quick': 'CHECKLOCKTIMEVERIFY / CHECKSEQUENCEVERIFY: every top item of 0..6 bytes, every 32-bit lock time, sequence and version (BIP65 / BIP112 written out in the harness); per opcode: every stack of depth 0..(arity+1) whose operand items have every length in 0..5 bytes (arithmetic) / 0..2 bytes (stack manipulation) with fully symbolic content; PICK/ROLL counts: 0..1-byte encodings; programs through Script.evaluate: every sequence of <= 3 commands over the alphabet {push of a symbolic item of 0..2 bytes, OP_0, OP_1, IF, NOTIF, ELSE, ENDIF, VERIFY, RETURN, DUP, EQUAL, ADD, NOT}',
     'thorough': 'as quick with depth +1, WITHIN operands 0..5 bytes, programs of <= 4 commands',
 }
 OUTSIDE = 'real ECDSA inside CHECKSIG (oracle), altstack opcodes (not implemented by the library), programs longer than the bound or outside the alphabet, items longer than 5 bytes'
@@ -177,6 +177,73 @@ def h_op(ex, name, shape):
             st = [i['s%d' % p] for p in range(depth - 1, -1, -1)]
             return run_lib_op(S, name, st)
         ex.validate((lib_ok, lib_st), conc, 'op_' + name)
+
+
+LOCKTIME_THRESHOLD = 500000000          # BIP65 / Bitcoin Core LOCKTIME_THRESHOLD
+
+
+def h_cltv(ex):
+    """OP_CHECKLOCKTIMEVERIFY (BIP65) as the real Stack.op_checklocktimeverify decides it, for every top stack item of
+    <= 6 bytes (more than 5 is an error), every transaction lock time and every input sequence number: fails on an empty stack, a negative
+    number, mixed block-height / timestamp kinds (threshold 500 000 000), a lock time not yet reached, a final input
+    sequence; otherwise passes and leaves the stack unchanged"""
+    E, S = _mods()
+    depth = ex.choose('depth', [0, 1, 2])
+    ln = ex.choose('top_len', [0, 1, 2, 3, 4, 5, 6]) if depth else 0
+    items = ([ex.bytes('below', 1)] if depth == 2 else []) + ([ex.bytes('top', ln)] if depth else [])
+    tx_locktime = ex.int('tx_locktime', 0, 2 ** 32 - 1)
+    sequence = ex.int('sequence', 0, 2 ** 32 - 1)
+    if ex.concrete:
+        tx_locktime, sequence = int(tx_locktime), int(sequence)
+    lib_ok, lib_st = run_lib_op(S, 'checklocktimeverify', items, (sequence, tx_locktime))
+    if depth == 0:
+        want = False
+    else:
+        n = _scriptnum5(items[-1])
+        same_kind = s_or(s_and(tx_locktime < LOCKTIME_THRESHOLD, n < LOCKTIME_THRESHOLD),
+                         s_and(tx_locktime >= LOCKTIME_THRESHOLD, n >= LOCKTIME_THRESHOLD))
+        want = s_and(n >= 0, same_kind, n <= tx_locktime, sequence != 0xffffffff) if ln <= 5 else False      # (numbers of more than 5 bytes: script error)
+    ex.check(want == lib_ok if isinstance(want, bool) else (want if lib_ok else s_not(want)), 'op_checklocktimeverify-consensus')
+    ex.check(len(lib_st) == len(items) and all(a is b for a, b in zip(lib_st, items)), 'op_checklocktimeverify-leaves-stack-unchanged')
+
+
+def h_csv(ex):
+    """OP_CHECKSEQUENCEVERIFY (BIP112) as the real Stack.op_checksequenceverify decides it, for every top stack item of
+    <= 6 bytes, input sequence and transaction version"""
+    E, S = _mods()
+    depth = ex.choose('depth', [0, 1])
+    ln = ex.choose('top_len', [0, 1, 2, 3, 4, 5, 6]) if depth else 0
+    items = [ex.bytes('top', ln)] if depth else []
+    sequence = ex.int('sequence', 0, 2 ** 32 - 1)
+    version = ex.int('version', 0, 2 ** 31 - 1)
+    if ex.concrete:
+        sequence, version = int(sequence), int(version)
+    st = S.Stack(list(items))
+    try:
+        r = st.op_checksequenceverify(sequence, version)
+        lib_ok = r is not False
+    except Exception:
+        lib_ok = False
+    if depth == 0 or ln > 5:
+        want = False
+    else:
+        n = _scriptnum5(items[-1])
+        DISABLE, TYPE, MASK = 1 << 31, 1 << 22, 0xffff | (1 << 22)
+        enforced = s_and(version >= 2, (sequence & DISABLE) == 0, (n & TYPE) == (sequence & TYPE), (n & MASK) <= (sequence & MASK))
+        want = s_and(n >= 0, s_or((n & DISABLE) != 0, enforced))
+    nop = kf('C19-checksequenceverify-not-implemented', lib_ok is True)
+    ex.check(want == lib_ok if isinstance(want, bool) else (want if lib_ok else s_not(want)), 'op_checksequenceverify-consensus', known=nop)
+
+
+def _scriptnum5(b):
+    """CScriptNum of up to 5 bytes: little-endian magnitude, sign in the top bit of the last byte"""
+    if len(b) == 0:
+        return 0
+    mag = shims.IntShim.from_bytes(b[:-1] + bytes([0]), 'little') if len(b) > 1 else 0
+    last = b[len(b) - 1]
+    mag = mag + ((last & 0x7f) << (8 * (len(b) - 1)))
+    neg = (last & 0x80) != 0
+    return core.s_ite(neg, -mag, mag) if not isinstance(neg, bool) else (-mag if neg else mag)
 
 
 def h_pick_roll(ex, name, maxdepth, wide):
@@ -413,6 +480,8 @@ def jobs(tier):
         J.append(j)
     for name in ('checksig', 'checksigverify', 'checkmultisig', 'checkmultisigverify'):
         J.append(Job('op_' + name, h_sigops, W=56, setup=setup, params=dict(name=name, maxn=3), budget_s=1500))
+    J.append(Job('op_checklocktimeverify', h_cltv, W=56, setup=setup, budget_s=1500))
+    J.append(Job('op_checksequenceverify', h_csv, W=56, setup=setup, budget_s=1500))
     for name in ('pick', 'roll'):
         J.append(Job('op_' + name, h_pick_roll, W=56, setup=setup, params=dict(name=name, maxdepth=3 if q else 4, wide=not q), budget_s=1500))
     ops = [o for o in sorted(interp.CORE_OPCODES) if o not in (0x79, 0x7a)]
